@@ -3,6 +3,7 @@ import Cuke.Lemmas.SchedLts
 import Cuke.Model.SchedMon
 import Cuke.Lemmas.Brackets
 import Cuke.Lemmas.SchedBrackets
+import Cuke.Lemmas.SchedOrder
 /-!
 # C03 — Event stream framing: run/feature/rule brackets are exact and properly nested
 Model: `Cuke.startScenarios`, `Cuke.scenarioFinished`, `Cuke.finishAll`, the run-level labels of the
@@ -219,4 +220,35 @@ example : GoodB (accept exCfg exLog) = true ∧ (accept exCfg exLog).br = Bracke
     expEvents (accept exCfg exLog).expect = [] ∧
     GoodB (accept exCfg (exLog.take 16 ++ exLog.drop 17)) = false := by decide +kernel
 
+
+/-! ## An order clause over whole runs: Started before the first scenario event
+
+`Clean0` = the log raised no disagreement of any class. Lemmas/SchedOrder.lean. -/
+
+open Cuke.SchedOrd in
+/-- **No scenario event before its brackets are opened.** In every run replayed without disagreement, whenever an
+    event of scenario `k` is sent, the `Feature::Started` of its feature — and, if it sits in a rule, the
+    `Rule::Started` of that rule — has been sent before: whatever the batches, the completion order, the retries, the
+    moment the parser delivered the feature. (Chain: `get` returns a batch → `start_scenarios` opens its features and
+    rules → by the bracket ledger their Started is sent or owed → at dispatch nothing is owed any more → scenario
+    events are only accepted from dispatched attempts.) -/
+theorem lts_started_before_scenario_events (c : SCfg) (ls : List Label) (k : ScenKey) (ret : Option Retries) (se : ScenEv)
+    (hc : Clean0 (accept c (ls ++ [.tx (.scen k ret se)])) = true) :
+    Ev.featStarted k.feat ∈ (accept c ls).out ∧ ∀ r, k.rule = some r → Ev.ruleStarted k.feat r ∈ (accept c ls).out := by
+  have hacc : accept c (ls ++ [.tx (.scen k ret se)]) = stepL c (accept c ls) (.tx (.scen k ret se)) := by
+    simp [accept, List.foldl_append]
+  rw [hacc] at hc
+  have hpre := clean0_step_mono c _ _ hc
+  have hoi := accept_oinv c ls hpre
+  obtain ⟨e, he, hk⟩ := tx_scen_running c (accept c ls) k ret se hc
+  have := hoi.2.2 e he
+  unfold StartedIn at this
+  rw [hk] at this
+  exact this
+
+/-- non-vacuity: the complete example run is replayed without any disagreement, and it sends scenario events -/
+example : Cuke.SchedOrd.Clean0 (accept exCfg (exLog.take 12)) = true ∧
+    exLog[11]? = some (.tx (.scen k2 none .started)) := by decide +kernel
+
 end Cuke.C03
+
